@@ -82,6 +82,22 @@ CHECKS["C17"] = dict(
     design="§4 C17",
     note="Partial scope: everything behind zipfile/tarfile/torch I/O is outside (C boundary realises symbolic content). " + TRUST)
 
+CHECKS["C11"] = dict(
+    text="Inductive lemma on the allowlist table plus bounded histories: from the pristine ML_ALLOWLIST one operation (construct an "
+         "unpickler, activate+probe+reactivate, static analysis, two live instances) with additions from table-derived classes leaves the "
+         "table deep-equal to its snapshot and gives each instance exactly base+additions; histories of <=3 (quick) / <=4 (thorough) "
+         "operations over a 14-symbol alphabet are compared with the two-variable model. Finite-state: solver-certified exhaustive partition.",
+    technique="CrossHair+z3 solver-partitioned exhaustive fan; inductive table-pristine lemma + bounded histories vs model",
+    design="§4 C11")
+CHECKS["C12"] = dict(
+    text="Bounded histories (length <=4 quick / <=6 thorough, contexts nested <=3) over arm / activate / activate+additions / remove / "
+         "enter / exit / exit-by-exception / probe load / probe loads on the real pickle and _pickle module attributes, checked after every "
+         "step against an explicit lifecycle model (documented protection in force => flagged probe raises and its sink is silent; context "
+         "exit restores the identical pickle.load binding and touches nothing else; after remove all four bindings are the originals). "
+         "Finite-state: the solver certifies the partition of the history space exhaustive.",
+    technique="CrossHair+z3 solver-partitioned exhaustive history enumeration vs explicit lifecycle model",
+    design="§4 C12")
+
 NOT_APPLICABLE = {
     "C16": "every observable sits behind zipfile/zlib/torch C-level I/O; symbolic inputs are realised at the first call so the solver has nothing to decide (DESIGN §5); the pickle-level half is covered by C08",
 }
